@@ -38,7 +38,7 @@ def parseRaw (j : Json) : Except String RawView := do
   match (← sfld j "t") with
   | "unset" => return .unset
   | "none" => return .none
-  | "pairs" => return .pairs (← strsD j "keys") (← boolD j "non_text" false)
+  | "pairs" => return .pairs (← (← arr (fldD j "keys" (Json.arr #[]))).mapM parseVal)
   | "notIterable" => return .notIterable
   | "badPairs" => return .badPairs
   | t => throw s!"bad raw {t}"
